@@ -917,7 +917,7 @@ def lookupEncoding(encoding):
     if encoding is not None:
         try:
             return webencodings.lookup(encoding)
-        except AttributeError:
+        except (AttributeError, UnicodeEncodeError):
             return None
     else:
         return None
